@@ -196,6 +196,7 @@ func judged(c Case) *ev.Verdict {
 func registerAll() {
 	ev.Register("models", judged)
 	ev.Register("corpus", corpusOracle)
+	ev.Register("feature-table", oracle)
 }
 
 func TestPropModels(t *testing.T) {
@@ -291,6 +292,68 @@ func TestPropCorpus(t *testing.T) {
 	ev.NonTrivialEnum("corpus", nt)
 	if bad > 0 {
 		t.Errorf("VIOLATION-CANDIDATE corpus: %d", bad)
+	}
+}
+
+// exhaustive layout-feature combinations on fixed models, each against the canonical layout
+func TestPropFeatureTable(t *testing.T) {
+	registerAll()
+	ev.KeepFirst("feature-table")
+	ty := []model.Type{{Name: "@t", Node: model.Scalar("integer", "5", model.R("min", model.Num("1")))}, {Name: "@k", Node: model.Scalar("string", `"kk"`)}}
+	enumNotes := model.Val{K: "list", Items: []model.Val{model.Str("x"), model.Num("1"), model.Bool(true)}, Notes: []string{"first", "", "the last - one"}}
+	models := []*model.Project{
+		{Root: model.Scalar("integer", "1", model.R("min", model.Num("1")), model.R("max", model.Num("2.50")))},
+		{Root: &model.Node{Kind: "string", Lit: `"x"`, Note: "a note - with dash", Rules: []model.Rule{model.R("enum", enumNotes)}}},
+		{Root: model.Obj(model.R("additionalProperties", model.Bool(true))).Add("a", model.Scalar("integer", "1", model.R("optional", model.Bool(true)))).Add("b q", &model.Node{Kind: "null", Lit: "null", Note: "only a note"}), Types: ty},
+		{Root: model.Arr(model.R("minItems", model.Num("1"))).Item(model.Ref("@t", model.R("nullable", model.Bool(true)))).Item(model.Choice("@t", "@k")).Item(model.Arr()).Item(model.Obj()), Types: ty},
+		{Root: model.Obj().AddShortcut("@k", model.Scalar("float", "1.5", model.R("or", model.List(model.Set(model.R("type", model.Str("float")), model.R("min", model.Num("1"))), model.Str("string"), model.Str("@t"))))).Add("deep", model.Obj().Add("er", model.Arr().Item(model.Scalar("integer", "1")).Item(model.Scalar("integer", "2")))), Types: ty},
+		{Root: model.Obj(model.R("allOf", model.Str("@base"))).Add("own", model.Scalar("boolean", "true", model.R("const", model.Bool(true)))), Types: []model.Type{{Name: "@base", Node: model.Obj().Add("base", model.Scalar("integer", "1"))}}},
+		{Root: model.Obj().Add("bad", model.Scalar("integer", "1", model.R("min", model.Num("2")))).Add("fine", model.Scalar("string", `"s"`, model.R("regex", model.Str("^s$"))))},
+		{Root: model.Scalar("string", `"2021-02-29"`, model.R("type", model.Str("date")))},
+		{Root: model.Scalar("integer", "1", model.R("unknownRule", model.Num("1")))},
+		{Root: model.Scalar("string", `"a"`, model.R("enum", model.RuleRef("@e"))), Enums: []model.EnumRule{{Name: "@e", Items: []model.Val{model.Str("a"), model.Str("b")}, Notes: []string{"one", "two"}}}},
+	}
+	var n, bad int64
+	idx := 0
+	canonical := &model.Layout{}
+	for mi, m := range models {
+		for _, nl := range []string{"\n", "\r\n", "\r"} {
+			for annot := 0; annot <= 2; annot++ {
+				for quote := 0; quote <= 1; quote++ {
+					for pad := 0; pad <= 2; pad++ {
+						for comments := 0; comments <= 4; comments++ {
+							for flags := 0; flags < 16; flags++ {
+								idx++
+								if !ev.Mine(idx) {
+									continue
+								}
+								if ev.Quick() && (idx/7)%3 != 0 {
+									continue
+								}
+								l := &model.Layout{NL: nl, Annot: annot, Quote: quote, Pad: pad, Comments: comments,
+									Compact: flags&1 != 0, BreakColon: flags&2 != 0, TrailComma: flags&4 != 0, EmptyComments: flags&8 != 0 && comments != 0,
+									Lead: idx % 3, Trail: (idx / 3) % 3, LineIndent: (idx / 5) % 4, LineTail: (idx / 11) % 3,
+									Seq: []int{idx % 7, 1, idx % 5, 3, 0, idx % 3, 2, 5, 1, 4}}
+								c := Case{P: m, A: l, B: canonical}
+								n++
+								ev.NonTrivial("feature-table", fmt.Sprintf("%d/%d", mi, idx))
+								if idx%40000 == 1 {
+									ev.Sample("feature-table", map[string]any{"a": m.Text(l), "b": m.Text(canonical)})
+								}
+								if v := oracle(c); v != nil && ev.Report("feature-table", c, v) {
+									bad++
+								}
+							}
+						}
+					}
+				}
+			}
+		}
+	}
+	ev.Count("feature-table", n)
+	ev.Exhaustive("feature-table", fmt.Sprintf("%d fixed models x 3 newline conventions x 3 annotation styles x quoted/bare names x 3 padding modes x 5 comment modes x {compact, break after colon, trailing comma, empty comments} (quick: every third combination)", len(models)))
+	if bad > 0 {
+		t.Errorf("VIOLATION-CANDIDATE feature-table: %d", bad)
 	}
 }
 
